@@ -4,7 +4,7 @@ import json, os, random, shutil
 from concurrent.futures import ThreadPoolExecutor
 import kzv, kzscen
 
-INVS = 'TypeOK R_Mutex R_ReadOrder R_Prefix R_NothingAfterError R_EOFOnlyAtEnd R_SkipUntouched R_CompleteAtEOF R_ClosedRefuses'
+INVS = 'TypeOK R_Mutex R_ReadOrder R_Prefix R_NothingAfterError R_EOFOnlyAtEnd R_SkipUntouched R_CompleteAtEOF R_ClosedRefuses R_Ownership'
 
 
 def tla_seq(xs):
